@@ -74,7 +74,7 @@ Section ConcPayload.
     destruct t as [regs prog cont out]. cbn [t_cont] in Hc. subst cont.
     assert (U : forall t', sumT createdT (set_nth (c_threads s) tid t') = sumT createdT (c_threads s) - created_out out + created_out (t_out t')).
     { intros t'. rewrite (sumT_upd createdT _ tid _ t' Ht). reflexivity. }
-    destruct m as [p i first keep|p i cand keep|delta after|h|r|r report|tb p i|p o]; cbn [exec_mop].
+    destruct m as [p i rt first keep|p i off cand keep|delta after|h|r|r report|tb p i|p o]; cbn [exec_mop].
     - destruct (slot_lookup (c_slots s) (i :: p)); [|destruct (child_is_node g p i)];
         cbn [fst upd_thread c_payload_drops c_data c_threads]; rewrite U; cbn [t_out]; split; [lia|exact N|lia|exact N|lia|exact N].
     - destruct (slot_lookup (c_slots s) (i :: p)); cbn [fst upd_thread c_payload_drops c_data c_threads]; rewrite U; cbn [t_out];
